@@ -647,6 +647,8 @@ where
     #[inline]
     pub(crate) fn spawn(mut self) -> JoinHandle<Result<(), CacheError>> {
         #[cfg(transparencies_stretto_verif)]
+        crate::verif::note_processor_config(self.ignore_internal_cost, self.cleanup_duration);
+        #[cfg(transparencies_stretto_verif)]
         if crate::verif::parked() {
             crate::verif::park(self);
             return spawn(|| Ok(()));
